@@ -513,4 +513,123 @@ theorem invS_nttS : ∀ (d j k kk : Nat) (w : List Int), w.length = 2 ^ d → 2 
       have step1 := ((x.sub y).mul_left (-zv kk)).mul_right RINV
       exact cg_diff _ _ _ _ _ _ _ _ hpI hpc step1
 
+/-! ### the forward specification undoes the inverse one as well -/
+
+theorem cg_fwd_sum (P P2 L H c cn X : Int) (hP : P2 = 2 * P) (hpc : cg (c * cn) 1) (hx : cg X ((L + H) + c * (cn * (L - H)))) (hL : True) :
+    cg X (2 * L) := by
+  have e : (L + H) + c * (cn * (L - H)) = (L + H) + (c * cn) * (L - H) := by grind
+  rw [e] at hx
+  have := hpc.mul_right (L - H)
+  rw [Int.one_mul] at this
+  exact hx.trans (((cg.rfl' (L + H)).add this).trans (cg.of_eq (by grind)))
+
+theorem cg_fwd_diff (L H c cn X : Int) (hpc : cg (c * cn) 1) (hx : cg X ((L + H) - c * (cn * (L - H)))) : cg X (2 * H) := by
+  have e : (L + H) - c * (cn * (L - H)) = (L + H) - (c * cn) * (L - H) := by grind
+  rw [e] at hx
+  have := hpc.mul_right (L - H)
+  rw [Int.one_mul] at this
+  exact hx.trans (((cg.rfl' (L + H)).sub this).trans (cg.of_eq (by grind)))
+
+theorem fwd_sum_eq (a b z1 z2 r : Int) : a + b + z1 * (-z2 * (a - b) * r) * r = (a + b) + (z1 * r) * ((-z2 * r) * (a - b)) := by grind
+theorem fwd_diff_eq (a b z1 z2 r : Int) : a + b - z1 * (-z2 * (a - b) * r) * r = (a + b) - (z1 * r) * ((-z2 * r) * (a - b)) := by grind
+
+theorem nttS_cong' : ∀ (d k : Nat) (u v : List Int), CongL u v → CongL (nttS d k u) (nttS d k v) := by
+  intro d
+  induction d with
+  | zero => intro k u v h; exact h
+  | succ d ih =>
+    intro k u v h
+    unfold nttS
+    simp only [h.1]
+    have ct := (h.drop (v.length / 2)).map (fun x => zv k * x * RINV) (fun x => zv k * x * RINV)
+      (fun a b hab => (hab.mul_left (zv k)).mul_right RINV)
+    exact (ih (2 * k) _ _ ((h.take (v.length / 2)).zipWith ct _ _ (fun a b a' b' h1 h2 => h1.add h2))).append
+      (ih (2 * k + 1) _ _ ((h.take (v.length / 2)).zipWith ct _ _ (fun a b a' b' h1 h2 => h1.sub h2)))
+
+theorem nttS_scale' (c : Int) : ∀ (d k : Nat) (w : List Int), CongL (nttS d k (w.map (fun x => c * x))) ((nttS d k w).map (fun x => c * x)) := by
+  intro d
+  induction d with
+  | zero => intro k w; exact CongL.refl _
+  | succ d ih =>
+    intro k w
+    unfold nttS
+    simp only [List.length_map, List.map_append]
+    have hA : CongL (List.zipWith (fun a t => a + t) ((w.map (fun x => c * x)).take (w.length / 2))
+        (((w.map (fun x => c * x)).drop (w.length / 2)).map (fun x => zv k * x * RINV)))
+        ((List.zipWith (fun a t => a + t) (w.take (w.length / 2)) ((w.drop (w.length / 2)).map (fun x => zv k * x * RINV))).map (fun x => c * x)) :=
+      ⟨by simp, fun i h1 h2 => by
+        simp only [List.getElem_zipWith, List.getElem_map, List.getElem_take, List.getElem_drop]
+        exact cg.of_eq (by grind)⟩
+    have hB : CongL (List.zipWith (fun a t => a - t) ((w.map (fun x => c * x)).take (w.length / 2))
+        (((w.map (fun x => c * x)).drop (w.length / 2)).map (fun x => zv k * x * RINV)))
+        ((List.zipWith (fun a t => a - t) (w.take (w.length / 2)) ((w.drop (w.length / 2)).map (fun x => zv k * x * RINV))).map (fun x => c * x)) :=
+      ⟨by simp, fun i h1 h2 => by
+        simp only [List.getElem_zipWith, List.getElem_map, List.getElem_take, List.getElem_drop]
+        exact cg.of_eq (by grind)⟩
+    exact ((nttS_cong' d (2 * k) _ _ hA).trans (ih (2 * k) _)).append ((nttS_cong' d (2 * k + 1) _ _ hB).trans (ih (2 * k + 1) _))
+
+/-- **forward butterflies after inverse butterflies multiply by `2^d`** (modulo q): the two transforms are mutually
+    inverse up to the factor `2^d` -/
+theorem nttS_invS : ∀ (d j k kk : Nat) (w : List Int), w.length = 2 ^ d → 2 ^ j ≤ k → k < 2 ^ (j + 1) → k + kk + 1 = 3 * 2 ^ j →
+    j + d ≤ 8 → CongL (nttS d k (invS d kk w)) (w.map (fun x => 2 ^ d * x)) := by
+  intro d
+  induction d with
+  | zero =>
+    intro j k kk w _ _ _ _ _
+    refine ⟨by simp [invS, nttS], fun i h1 h2 => ?_⟩
+    simp only [invS, nttS, List.getElem_map]
+    exact cg.of_eq (by simp)
+  | succ d ih =>
+    intro j k kk w hw h1 h2 h3 hjd
+    have hp : 2 ^ (d + 1) = 2 * 2 ^ d := by rw [Nat.pow_succ]; omega
+    have hpj : 2 ^ (j + 1) = 2 * 2 ^ j := by rw [Nat.pow_succ]; omega
+    have hpj2 : 2 ^ (j + 1 + 1) = 2 * 2 ^ (j + 1) := by rw [Nat.pow_succ]; omega
+    have hpI : (2:Int) ^ (d + 1) = 2 * 2 ^ d := by rw [Int.pow_succ]; omega
+    have hhalf : w.length / 2 = 2 ^ d := by omega
+    have hlo : (w.take (2 ^ d)).length = 2 ^ d := by rw [List.length_take]; omega
+    have hhi : (w.drop (2 ^ d)).length = 2 ^ d := by rw [List.length_drop]; omega
+    have lL := invS_length d (2 * kk + 1) (w.take (2 ^ d)) hlo
+    have lH := invS_length d (2 * kk) (w.drop (2 ^ d)) hhi
+    have hpc := pair_cg j k kk (by omega) h1 h2 h3
+    -- the inverse layer
+    have e1 : invS (d + 1) kk w = List.zipWith (fun t u => t + u) (invS d (2 * kk + 1) (w.take (2 ^ d))) (invS d (2 * kk) (w.drop (2 ^ d))) ++
+        List.zipWith (fun t u => -zv kk * (t - u) * RINV) (invS d (2 * kk + 1) (w.take (2 ^ d))) (invS d (2 * kk) (w.drop (2 ^ d))) := by
+      rw [invS]; simp only [hhalf]
+    have lS : (List.zipWith (fun t u => t + u) (invS d (2 * kk + 1) (w.take (2 ^ d))) (invS d (2 * kk) (w.drop (2 ^ d)))).length = 2 ^ d := by
+      rw [List.length_zipWith, lL, lH]; omega
+    have lD : (List.zipWith (fun t u => -zv kk * (t - u) * RINV) (invS d (2 * kk + 1) (w.take (2 ^ d))) (invS d (2 * kk) (w.drop (2 ^ d)))).length = 2 ^ d := by
+      rw [List.length_zipWith, lL, lH]; omega
+    rw [e1]
+    unfold nttS
+    have hlen2 : (List.zipWith (fun t u => t + u) (invS d (2 * kk + 1) (w.take (2 ^ d))) (invS d (2 * kk) (w.drop (2 ^ d))) ++
+        List.zipWith (fun t u => -zv kk * (t - u) * RINV) (invS d (2 * kk + 1) (w.take (2 ^ d))) (invS d (2 * kk) (w.drop (2 ^ d)))).length / 2 = 2 ^ d := by
+      rw [List.length_append, lS, lD]; omega
+    simp only [hlen2]
+    rw [List.take_left' lS, List.drop_left' lS]
+    -- lo' ≅ 2 L, hi' ≅ 2 H
+    have cLo : CongL (List.zipWith (fun a t => a + t) (List.zipWith (fun t u => t + u) (invS d (2 * kk + 1) (w.take (2 ^ d))) (invS d (2 * kk) (w.drop (2 ^ d))))
+        ((List.zipWith (fun t u => -zv kk * (t - u) * RINV) (invS d (2 * kk + 1) (w.take (2 ^ d))) (invS d (2 * kk) (w.drop (2 ^ d)))).map (fun x => zv k * x * RINV)))
+        ((invS d (2 * kk + 1) (w.take (2 ^ d))).map (fun x => 2 * x)) := by
+      refine ⟨by simp only [List.length_zipWith, List.length_map, lL, lH]; omega, fun i g1 g2 => ?_⟩
+      simp only [List.getElem_zipWith, List.getElem_map]
+      exact cg_fwd_sum 1 2 _ _ (zv k * RINV) (-zv kk * RINV) _ rfl hpc (cg.of_eq (fwd_sum_eq _ _ _ _ _)) trivial
+    have cHi : CongL (List.zipWith (fun a t => a - t) (List.zipWith (fun t u => t + u) (invS d (2 * kk + 1) (w.take (2 ^ d))) (invS d (2 * kk) (w.drop (2 ^ d))))
+        ((List.zipWith (fun t u => -zv kk * (t - u) * RINV) (invS d (2 * kk + 1) (w.take (2 ^ d))) (invS d (2 * kk) (w.drop (2 ^ d)))).map (fun x => zv k * x * RINV)))
+        ((invS d (2 * kk) (w.drop (2 ^ d))).map (fun x => 2 * x)) := by
+      refine ⟨by simp only [List.length_zipWith, List.length_map, lL, lH]; omega, fun i g1 g2 => ?_⟩
+      simp only [List.getElem_zipWith, List.getElem_map]
+      exact cg_fwd_diff _ _ (zv k * RINV) (-zv kk * RINV) _ hpc (cg.of_eq (fwd_diff_eq _ _ _ _ _))
+    have iL := ih (j + 1) (2 * k) (2 * kk + 1) (w.take (2 ^ d)) hlo (by omega) (by omega) (by omega) (by omega)
+    have iH := ih (j + 1) (2 * k + 1) (2 * kk) (w.drop (2 ^ d)) hhi (by omega) (by omega) (by omega) (by omega)
+    have rL := ((nttS_cong' d (2 * k) _ _ cLo).trans (nttS_scale' 2 d (2 * k) _)).trans
+      (iL.map (fun x => 2 * x) (fun x => 2 * x) (fun a b h => h.mul_left 2))
+    have rH := ((nttS_cong' d (2 * k + 1) _ _ cHi).trans (nttS_scale' 2 d (2 * k + 1) _)).trans
+      (iH.map (fun x => 2 * x) (fun x => 2 * x) (fun a b h => h.mul_left 2))
+    refine (rL.append rH).trans ?_
+    rw [List.map_map, List.map_map, ← List.map_append, List.take_append_drop]
+    exact (CongL.refl w).map _ _ (fun a b h => by
+      simp only [Function.comp]
+      rw [hpI]
+      exact (cg.of_eq (by grind)).trans (h.mul_left (2 * 2 ^ d)))
+
 end Fips204.Impl
